@@ -45,11 +45,18 @@ impl<'a, 'b> GeneratorState<'a> {
         condition: &Expr,
         alternatives: &Expr,
         pos: usize,
+        high_byte: bool,
     ) -> Result<ExprType, Error> {
         match alternatives {
             Expr::BinOp { lhs, op, rhs } => {
                 if *op == Operation::TernaryCond2 {
                     if self.acc_in_use {
+                        if high_byte {
+                            // The carry of the low byte pass wouldn't survive the condition
+                            return Err(self
+                                .compiler_state
+                                .syntax_error("Code too complex for the compiler", pos));
+                        }
                         self.sasm(PHA)?;
                         // The accumulator is saved: it must not be pushed again by the condition
                         self.acc_in_use = false;
@@ -95,22 +102,22 @@ impl<'a, 'b> GeneratorState<'a> {
                             self.generate_condition(condition, pos, true, &else_label, true)?;
                         if let Some(b) = cond {
                             if b {
-                                return Ok(self.generate_expr(rhs, pos, false, false)?);
+                                return Ok(self.generate_expr(rhs, pos, high_byte, high_byte)?);
                             } else {
-                                return Ok(self.generate_expr(lhs, pos, false, false)?);
+                                return Ok(self.generate_expr(lhs, pos, high_byte, high_byte)?);
                             }
                         } else {
                             let saved_y = self.saved_y;
-                            let left = self.generate_expr(lhs, pos, false, false)?;
+                            let left = self.generate_expr(lhs, pos, high_byte, high_byte)?;
                             let la =
-                                self.generate_assign(&ExprType::A(false), &left, pos, false)?;
+                                self.generate_assign(&ExprType::A(false), &left, pos, high_byte)?;
                             let restored = self.restore_y_borrowed_by_alternative(saved_y);
                             self.asm(JMP, &ExprType::Label(ifend_label.clone()), pos, false)?;
                             self.label(&else_label)?;
                             self.acc_in_use = false;
-                            let right = self.generate_expr(rhs, pos, false, false)?;
+                            let right = self.generate_expr(rhs, pos, high_byte, high_byte)?;
                             let ra =
-                                self.generate_assign(&ExprType::A(false), &right, pos, false)?;
+                                self.generate_assign(&ExprType::A(false), &right, pos, high_byte)?;
                             self.restore_y_borrowed_by_alternative(saved_y);
                             self.label(&ifend_label)?;
                             if restored {
